@@ -319,5 +319,142 @@ theorem good_of_reach {progs : Nat → List Op} {s : Sys} (h : Reach progs s) : 
   | init => exact good_init progs
   | step t _ hnw ih => exact good_step _ t ih hnw
 
+
+/-! ### Schedules (for concrete instances) -/
+
+def noWrapB (s : Sys) (t : Nat) : Bool :=
+  match (s.thr t).pc with
+  | .tInc _ => decide (s.sh.count + 1 < W)
+  | _ => true
+
+theorem noWrap_of_B {s : Sys} {t : Nat} (h : noWrapB s t = true) : NoWrap s t := by
+  intro b hb
+  simp only [noWrapB, hb, decide_eq_true_eq] at h
+  exact h
+
+/-- run a schedule from `s` -/
+def runFrom (s : Sys) : List Nat → Sys
+  | [] => s
+  | t :: ts => runFrom (step s t).1 ts
+
+/-- no step of the schedule wraps the counter -/
+def runOkFrom (s : Sys) : List Nat → Bool
+  | [] => true
+  | t :: ts => noWrapB s t && runOkFrom (step s t).1 ts
+
+def run (progs : Nat → List Op) (sched : List Nat) : Sys := runFrom (init progs) sched
+def runOk (progs : Nat → List Op) (sched : List Nat) : Bool := runOkFrom (init progs) sched
+
+theorem reach_runFrom {progs : Nat → List Op} (sched : List Nat) : ∀ s, Reach progs s → runOkFrom s sched = true →
+    Reach progs (runFrom s sched) := by
+  induction sched with
+  | nil => intro s h _; exact h
+  | cons t ts ih =>
+    intro s h hok
+    simp only [runOkFrom, Bool.and_eq_true] at hok
+    exact ih _ (Reach.step t h (noWrap_of_B hok.1)) hok.2
+
+theorem reach_run {progs : Nat → List Op} {sched : List Nat} (h : runOk progs sched = true) :
+    Reach progs (run progs sched) := reach_runFrom sched _ Reach.init h
+
+/-! ### The nesting counter does not wrap for programs shorter than 2^32 calls -/
+
+/-- 1 while the thread is inside a call -/
+def cur : Pc → Nat
+  | .done => 0
+  | _ => 1
+
+theorem fetch_len (r : List Op) : cur (fetch r).1 + (fetch r).2.length = r.length := by
+  cases r with
+  | nil => rfl
+  | cons op r => cases op <;> simp [fetch, entry, cur] <;> omega
+
+/-- calls made so far that still count: held acquisitions + the call in progress + the calls to come -/
+def budget (th : Thread) : Nat := th.hold + cur th.pc + th.rest.length
+
+theorem budget_finish (h : Nat) (r : List Op) : budget (finish h r) = h + r.length := by
+  have := fetch_len r
+  simp only [budget, finish]; omega
+
+theorem budget_trans (t : Nat) (sh : Shared) (th : Thread) : budget (trans t sh th).2.1 ≤ budget th := by
+  obtain ⟨pc, rest, hold⟩ := th
+  cases pc <;> simp only [trans] <;> (try split) <;> (try split) <;>
+    (try simp only [budget_finish]) <;> simp only [budget, cur] <;> omega
+
+theorem budget_reach {progs : Nat → List Op} {s : Sys} (h : Reach progs s) (t : Nat) :
+    budget (s.thr t) ≤ (progs t).length := by
+  induction h with
+  | init =>
+    have : (init progs).thr t = finish 0 (progs t) := rfl
+    rw [this, budget_finish]; omega
+  | step u _ _ ih =>
+    simp only [step, upd_apply]
+    split
+    · rename_i e; subst e; exact Nat.le_trans (budget_trans _ _ _) ih
+    · exact ih
+
+theorem nowrap_of_short {progs : Nat → List Op} {s : Sys} (h : Reach progs s) (t : Nat)
+    (hlen : (progs t).length < W) : NoWrap s t := by
+  intro b hpc
+  have hb := budget_reach h t
+  have hok := (good_of_reach h).ok t
+  simp only [Ok, hpc] at hok
+  simp only [budget, hpc, cur] at hb
+  omega
+
+/-! ### Data races on the lock's own fields -/
+
+/-- In no reachable state are two different threads about to perform
+conflicting accesses to a non-atomic field. -/
+def DRF (d : Decls) (progs : Nat → List Op) : Prop :=
+  ∀ s, Reach progs s → ∀ t u, t ≠ u →
+    ¬ Conflict d (nextAccess (s.thr t).pc) (nextAccess (s.thr u).pc)
+
+theorem conflict_count {d : Decls} {a b : Option Access} (hr : d.atomic .ready = true) (ho : d.atomic .owner = true)
+    (h : Conflict d a b) : ∃ x y, a = some x ∧ b = some y ∧ x.field = .count ∧ y.field = .count := by
+  unfold Conflict at h
+  cases a with
+  | none => exact h.elim
+  | some x =>
+    cases b with
+    | none => exact h.elim
+    | some y =>
+      obtain ⟨hf, _, hat⟩ := h
+      refine ⟨x, y, rfl, rfl, ?_, ?_⟩
+      · cases hx : x.field <;> simp_all
+      · rw [← hf]; cases hx : x.field <;> simp_all
+
+theorem inside_of_count {sh : Shared} {t : Nat} {th : Thread} {x : Access} (hok : Ok sh t th)
+    (hx : nextAccess th.pc = some x) (hf : x.field = .count) : inside th := by
+  obtain ⟨pc, rest, hold⟩ := th
+  cases pc <;> simp [nextAccess] at hx <;> subst hx <;> simp at hf
+  · exact Or.inr trivial
+  · exact Or.inl hok.1
+
+/-- With `ready_` and `locked_thread_id_` atomic, the only plain field is
+`lock_count_`, and it is touched only by the thread that is inside. -/
+theorem drf_of_atomic (d : Decls) (progs : Nat → List Op) (hr : d.atomic .ready = true)
+    (ho : d.atomic .owner = true) : DRF d progs := by
+  intro s hreach t u htu hc
+  have g := good_of_reach hreach
+  obtain ⟨x, y, hx, hy, hfx, hfy⟩ := conflict_count hr ho hc
+  exact htu (g.uniq t u (inside_of_count (g.ok t) hx hfx) (inside_of_count (g.ok u) hy hfy))
+
+/-- The interleaving that exhibits the race on a plain owner field: thread 0 has
+won the flag and is about to write the owner, thread 1 has lost the
+test_and_set and is about to read it. -/
+def witnessProgs : Nat → List Op := fun _ => [.lock]
+def witness : Sys := run witnessProgs [0, 1]
+
+theorem witness_reach : Reach witnessProgs witness := reach_run (by decide)
+
+theorem witness_pcs : (witness.thr 0).pc = .tWr true ∧ (witness.thr 1).pc = .tRd true := by decide
+
+theorem not_drf_of_plain_owner (d : Decls) (ho : d.atomic .owner = false) : ¬ DRF d witnessProgs := by
+  intro h
+  apply h witness witness_reach 0 1 (by decide)
+  rw [witness_pcs.1, witness_pcs.2]
+  simp [Conflict, nextAccess, Access.isWrite, ho]
+
 end RSpin
 end Primitiv.Lock
